@@ -12,6 +12,21 @@ use serde_json::json;
 
 pub const KNOWN_PLUS: &str = "path-plus-as-space";
 
+/// Whether provider interaction (asked once, with the right arguments, only when reached) is part of the
+/// property being checked. Each check runs in its own process and sets this once at start.
+pub static JUDGE_PROVIDER: std::sync::atomic::AtomicBool = std::sync::atomic::AtomicBool::new(true);
+
+/// Whether the *kind* of a refusal is part of the property (otherwise only accept / refuse is judged).
+pub static JUDGE_KIND: std::sync::atomic::AtomicBool = std::sync::atomic::AtomicBool::new(true);
+
+pub fn set_judge_kind(on: bool) {
+    JUDGE_KIND.store(on, std::sync::atomic::Ordering::SeqCst);
+}
+
+pub fn set_judge_provider(on: bool) {
+    JUDGE_PROVIDER.store(on, std::sync::atomic::Ordering::SeqCst);
+}
+
 pub const ACCESS_KEY: &str = "AKIDEXAMPLE";
 pub const SECRET: &str = "wJalrXUtnFEMI/K7MDENG+bPxRfiCYEXAMPLEKEY";
 pub const SECRET2: &str = "zQ9x/T2bVn+Rk7LmWp4sYc8dHf3gJa6uEeXoKiN1";
@@ -155,9 +170,10 @@ fn compare(sutr: &SutResult, calls: &[AskRec], touched: bool, reference: &Outcom
                 Some(k) => k,
                 None => return mism("error-not-a-SignatureError", e.debug.clone()),
             };
+            let judge_kind = JUDGE_KIND.load(std::sync::atomic::Ordering::Relaxed);
             match reference.error {
                 None => return mism("refused-but-reference-accepts", format!("Err({}): {}", k.name(), e.display)),
-                Some(rk) if rk != k => return mism("wrong-error-kind", format!("Err({}): {}", k.name(), e.display)),
+                Some(rk) if rk != k && judge_kind => return mism("wrong-error-kind", format!("Err({}): {}", k.name(), e.display)),
                 _ => {}
             }
             let (code, status) = k.code_status();
@@ -166,7 +182,10 @@ fn compare(sutr: &SutResult, calls: &[AskRec], touched: bool, reference: &Outcom
             }
         }
     }
-    // provider interaction
+    // provider interaction (only for properties that state it)
+    if !JUDGE_PROVIDER.load(std::sync::atomic::Ordering::Relaxed) {
+        return None;
+    }
     match &reference.ask {
         None => {
             if touched {
